@@ -35,8 +35,8 @@ Next == UNCHANGED id
 Spec == Init /\ [][Next]_id
 
 Range(s) == {s[i] : i \in DOMAIN s}
-Bag(s) == [x \in Range(s) |-> Cardinality({i \in DOMAIN s : s[i] = x})]
-Map(s, Op(_)) == [i \in DOMAIN s |-> Op(s[i])]
+Bag(s) == TLCEval([x \in Range(s) |-> Cardinality({i \in DOMAIN s : s[i] = x})])
+Map(s, Op(_)) == TLCEval([i \in DOMAIN s |-> Op(s[i])])
 
 \* ---------- problems ----------
 NormAction(a) ==
@@ -59,8 +59,11 @@ NormUPJ(P) ==
     epsilon |-> P.epsilon, discrete |-> P.discrete, selfov |-> P.selfov, htn |-> NormHTN(P.htn)]
 Sections == {"name", "types", "objects", "fluents", "init", "actions", "goals", "invariants", "traj", "timed_goals",
              "timed_effects", "metric", "nmetrics", "epsilon", "discrete", "selfov", "htn"}
+\* (a = b, equality as written, implies equality of the normal forms: the normal forms are only built
+\* for the pairs that differ somewhere)
 ProblemClauses(a, b) ==
-   LET na == NormUPJ(a)  nb == NormUPJ(b) IN {"upj-" \o s : s \in {s \in Sections : na[s] # nb[s]}}
+   IF a = b THEN {}
+   ELSE LET na == NormUPJ(a)  nb == NormUPJ(b) IN {"upj-" \o s : s \in {s \in Sections : na[s] # nb[s]}}
 
 \* ---------- plans ----------
 \* [kind, steps: <<[a, args, t, d]>>]; the order of the steps is part of a plan
@@ -118,5 +121,4 @@ Clauses(r) ==
            \cup (IF ~r.eq /\ proj = {} THEN {"impl-eq"} ELSE {})
 
 Judge == LET r == Batch[id] IN \A c \in Clauses(r) : PrintT(<<"FAIL", r.id, c>>)
-\* how many transitions were judged in full (both calls returned): reported by the driver as coverage
 =============================================================================
